@@ -75,8 +75,10 @@ CLAIMED = {
             'interpreter, forwarded_payload. ' + TIE, '§6 C15'),
     'C16': ('Lean 4 proof: every failed edit returns the chart unchanged (atomicity), effects of successful edits, transitions stay anchored + correspondence on edit scripts',
             'add/remove/rename/move/rotate *_atomic, *_effect, transitions_stay_anchored_* for all seven operations, '
-            'any_edit_session_keeps_transitions_anchored (every sequence of edits, succeeding or raising), built_charts_have_anchored_transitions. '
-            'PARTIAL: the parent/children tree invariants under add/remove/rename/move_state are checked by the tie. ' + TIE, '§6 C16'),
+            'any_edit_session_keeps_transitions_anchored (every sequence of edits, succeeding or raising), built_charts_have_anchored_transitions; '
+            'dictionaries_stay_consistent_* and any_edit_session_keeps_dictionaries_consistent (_states/_parent/_children: unique keys = the states, '
+            'x in children(p) iff parent(x) = p, no repetition, one root, no self-parent — for all seven operations incl. the recursive remove_state, '
+            'any session, any chart built by the API). PARTIAL: acyclicity beyond no-self-parent and validate() after each edit are checked by the tie. ' + TIE, '§6 C16'),
     'C17': ('Lean 4 proof: rename substitutes exactly the transition ends, keeps internal transitions internal, is atomic + guest/copy correspondence',
             'rename_substitutes_transition_ends, rename_keeps_internal, rename_to_itself, rename_atomic; rename_is_substitution (the renamed chart is '
             'the chart with the name substituted everywhere, up to declaration order) and renamed_behaves_as_substituted (by C07: same runs). '
